@@ -81,11 +81,19 @@ Theorem C03_facts_ethereumtx_clears_statedb :
   c03_ethereumtx_obtains_tx_statedb = true /\ c03_ethereumtx_clears_on_every_return = true.
 Proof. vm_compute. split; reflexivity. Qed.
 
+(** the ante chain (AnteDecVerifyEthAcc) calls keeper.CheckSenderBalance, which compares the sender
+    balance with TxData.Cost() = gas * feeCap + value — go-ethereum's buyGas check — and not with an
+    effective cost; the value the admission predicate [ante] is instantiated with *)
+Theorem C03_facts_sender_balance_check :
+  c03_ante_calls_check_sender_balance = true /\ c03_sender_balance_checked_against_cap_cost = true.
+Proof. vm_compute. split; reflexivity. Qed.
+
 (** the message-history theorem for the discipline just extracted *)
 Theorem C03_messages_hold_for_current_tree :
   forall ms k w, kwf k -> weq (world_of k) w -> msgs_wf w ms ->
-  let r := deliver_hist c03_ethereumtx_clears_on_every_return {| ms_blk := k; ms_ptr := None |} ms in
+  let r := deliver_hist c03_ethereumtx_clears_on_every_return c03_sender_balance_checked_against_cap_cost
+                        c03_ante_rejects_fee_cap_below_base_fee {| ms_blk := k; ms_ptr := None |} ms in
   snd r = snd (ref_hist w ms) /\ weq (world_of (ms_blk (fst r))) (fst (ref_hist w ms)) /\
   kwf (ms_blk (fst r)) /\ ms_ptr (fst r) = None.
-Proof. exact messages_equal_reference. Qed.
+Proof. exact (messages_equal_reference c03_ante_rejects_fee_cap_below_base_fee). Qed.
 Print Assumptions C03_messages_hold_for_current_tree.
